@@ -8,6 +8,7 @@ import (
 	"time"
 
 	"github.com/quickfixgo/quickfix/datadictionary"
+	"github.com/quickfixgo/quickfix/internal"
 )
 
 func init() {
@@ -414,4 +415,70 @@ func VerifHarness_C09_early() {
 		}
 	}
 	verifAssert(n == 1, "next-well-formed-message-processed-after-early-message")
+}
+
+func init() { verifRegister("C09_drain", VerifHarness_C09_drain) }
+
+// C09_drain: the reader goroutine may already have queued further frames when a message ends the connection; the
+// session drains that queue while disconnecting. Whatever the queued frame is, handling it neither panics (its reply
+// has nowhere to go: the connection is already closed) nor hangs.
+func VerifHarness_C09_drain() {
+	r := verifNewSession(ndBool("initiator"), BeginStringFIX42)
+	r.withTimers()
+	T := ndInt("T", 20, 22)
+	r.setCounters(T, 3)
+	kind := verifConc(ndInt("state", 0, 3))
+	r.verifLoggedOnState(kind, T)
+	in := make(chan fixIn, 4)
+	r.s.messageIn = in
+	// what is already queued behind the message that ends the connection
+	nq := verifConc(ndInt("queued", 1, 2))
+	for i := 0; i < nq; i++ {
+		var q *Message
+		switch verifConc(ndInt("queued-type", 0, 5)) {
+		case 0:
+			verifCase("queued-testrequest")
+			q = r.inbound("1", T+1+i)
+			q.Body.SetString(tagTestReqID, "Q")
+		case 1:
+			verifCase("queued-logout")
+			q = r.inbound("5", T+1+i)
+		case 2:
+			verifCase("queued-resendrequest")
+			q = r.inbound("2", T+1+i)
+			q.Body.SetInt(tagBeginSeqNo, 1)
+			q.Body.SetInt(tagEndSeqNo, 0)
+		case 3:
+			verifCase("queued-application")
+			q = r.appMessage(T + 1 + i)
+		case 4:
+			verifCase("queued-too-low")
+			q = r.appMessage(T - 3)
+		case 5:
+			verifCase("queued-garbage")
+			q = r.inbound("0", T+1+i)
+			q.Header.SetString(tagBeginString, "FIX.9.9")
+		}
+		in <- fixIn{bytes: bytes.NewBuffer(q.build()), receiveTime: time.Now()}
+	}
+	// the message that ends the connection: the peer's Logout, or a frame that makes the engine give up
+	var m *Message
+	if ndBool("ends-with-logout") {
+		m = r.inbound("5", T)
+	} else {
+		m = r.inbound("0", T)
+		m.Header.SetString(tagSenderCompID, "XX")
+	}
+	r.s.Incoming(r.s, fixIn{bytes: bytes.NewBuffer(m.build()), receiveTime: time.Now()})
+	r.pump()
+	if !r.s.IsConnected() {
+		verifCase("disconnected")
+		verifAssert(len(in) == 0, "drain-empties-the-inbound-queue")
+		verifAssert(r.s.messageOut == nil, "drain-leaves-no-connection")
+	}
+	// a timer that fires afterwards finds a quiet session
+	r.s.Timeout(r.s, internal.NeedHeartbeat)
+	r.s.Timeout(r.s, internal.PeerTimeout)
+	r.s.Timeout(r.s, internal.LogoutTimeout)
+	verifObserve("connected", map[bool]int{false: 0, true: 1}[r.s.IsConnected()])
 }
